@@ -38,6 +38,7 @@ class State:
         self.attached = False
         self.missing = []  # monitored attributes that no longer exist
         self.enabled = True
+        self.budget_hits = 0  # StepBudgetExceeded injections so far
         self.trace = None  # list of (operation, outcome, result digest) of outermost monitored calls while tracing
 
 
@@ -379,6 +380,7 @@ def _line_cb(code, line):
         S.max_steps = S.steps
     if S.steps > S.budget:
         S.steps = 0
+        S.budget_hits += 1
         raise StepBudgetExceeded(f"more than {S.budget} loop line events in {code.co_qualname}")
 
 
